@@ -562,7 +562,20 @@ func Run(r *fw.Run) {
 	kmax := r.Pick(2, 3)
 	var sds []string
 	if r.Thorough() {
-		sds = seeds(3, []string{"1.20", "1.21"}, true, false)
+		// thorough: all options for <= 2 lines (both go versions) plus every 3-line layout with at most one
+		// leading comment (go 1.21); the full 3-line space (518k seeds x 250 calls) takes ~30 min and adds
+		// only more combinations of comments on the same shapes
+		sds = seeds(2, []string{"1.20", "1.21"}, true, false)
+		sds = append(sds, seeds(3, []string{"1.21"}, false, false)...)
+		seenSeed := map[string]bool{}
+		var uniq []string
+		for _, s := range sds {
+			if !seenSeed[s] {
+				seenSeed[s] = true
+				uniq = append(uniq, s)
+			}
+		}
+		sds = uniq
 	} else {
 		// quick: the complete lean space of <= 2 lines (go 1.21; 1.20 for the single-line layouts)
 		sds = seeds(2, []string{"1.21"}, false, true)
